@@ -321,6 +321,30 @@ PROPS = {
         "assumptions": ["the HTTP backend is not part of this property's quantifier (the server side is external); faults at single statements inside one SQLite transaction are "
                         "indistinguishable from a fault before the transaction (rollback, C06)"],
     },
+    "C14": {
+        "module": "TcVerif.Props.C14",
+        "theorems": ["Tc.C14_old_values_never_leave", "Tc.C14_nothing_but_sync_ops", "Tc.C14_every_change_sent", "Tc.C14_document_shape",
+                     "Tc.C14_string_roundtrip", "Tc.C14_string_value_roundtrip", "Tc.parseBody_esc"],
+        "leanchecker_modules": [],
+        "runs": [
+            {"family": "wire", "flags": [], "quick": {"cases": 1500, "max_len": 6}, "thorough": {"cases": 40000, "max_len": 10}},
+            {"family": "hist", "flags": [], "quick": HIST_Q, "thorough": HIST_T},
+        ],
+        "judge_preds": ["format", "order", "secret", "roundtrip", "foreign", "wire"],
+        "nontrivial": lambda imp, ops: any(l.startswith("DEC") or l.startswith("ENC") for l in ops) or any(" -> ok v" in l for l in imp),
+        "rule": "wire family: per case six lines; ENC = a random batch of local operations (creates, deletes carrying the deleted task's content, updates with and without a "
+                "previous value, undo points; property names and values from a pool with quotes, backslashes, control characters, U+2028, BOM, U+10FFFF, NUL, long repeats; "
+                "timestamps incl. epoch, 1969, 2000-02-29, year 0001/9999, sub-second) encoded by the real sync encoder (hook) — the Lean judge requires the document to decode "
+                "under the model's reader to exactly the operations made in order, to re-print identically (hence no other fields) and to contain no marker of the previous "
+                "values, and the real decoder must read it back; DEC = a document from a foreign writer in the harness (random field order, white space, any character as "
+                "\\uXXXX incl. surrogate pairs, \\/, upper-case / simple / braced uuids, timestamps with 0-9 fraction digits and Z / +00:00 / -00:00 / +02:00 / -05:30 offsets), "
+                "and one in six with a single defect (truncated or non-hex uuid, missing or duplicated field, extra field, bad timestamp, number for a string, unknown operation, "
+                "truncated document, trailing bytes, invalid UTF-8) — the real decoder (hook, same serde path as TaskDb::sync) and the model's reader must agree on operations "
+                "or rejection. hist family: every version really sent by Replica::sync in random multi-replica histories must satisfy the same decode / re-print law (predicate wire). "
+                "non-trivial = every wire case; hist cases in which a version was accepted; distinct by SHA-1",
+        "trusted_base": TB_COMMON + ["serde_json / chrono / uuid are exercised, not modelled; the model's reader is an independent implementation of the documented grammar"],
+        "assumptions": ["partial: the whole-document round trip decode(print ops) = ops is checked per run and on a kernel-evaluated example, not proved for all ops (string level is proved)"],
+    },
     "C13": {
         "module": "TcVerif.Props.C13",
         "theorems": ["Tc.Crypto.unseal_seal", "Tc.Crypto.seal_layout", "Tc.Crypto.aad_layout", "Tc.Crypto.unseal_rejects_short",
